@@ -674,6 +674,7 @@ func run(t *testing.T, tape *simrt.Tape) *common.Outcome {
 	}
 	checkLiveness(o, w, callers, exact && allFail && !timeless && !latency, fdCap)
 	checkAnswered(o, w, callers, exact && !timeless)
+	checkSharedSuccess(o, w, callers, !timeless)
 	checkRecords(o, w, callers, perPeerCap, fdCap, timeless)
 
 	// (7) residue
@@ -962,6 +963,52 @@ func checkLiveness(o *common.Outcome, w *world, callers []*caller, enabled bool,
 		if !errors.As(c.err, &de) || c.retAt > c.invAt+bound {
 			o.Violate("C05/all-scripts-fail-but-no-dial-error-in-time", "%s: every address of every peer fails within its script (ranking delays, resolution and script durations that can be ahead of this caller sum to <= %v), the caller's limit is %v after the invocation, yet it returned %v after with: %v",
 				c.name(), bound, c.limitAt()-c.invAt, c.retAt-c.invAt, c.err)
+		}
+	}
+}
+
+// (2b) a connection obtained while several callers wait releases all of them ("success answers every
+// request interested in the address"): if caller A got a connection over a cleanly served address X at
+// instant t, every caller of that peer invoked before t (hence attached to the same worker, or served
+// from the connection table later) is released by t + name-resolution slack + 1 s.
+// Weaker reading: asserted only when no dial of X had failed earlier in the run. A request stops being
+// "interested" in X once X was refused by back-off (or failed) for it; if a later joiner's dial of X
+// then succeeds, the unchanged code releases such a request only when its remaining addresses have
+// finished (observed: 3 s later, with the connection). The statement does not bound that, so it is
+// not asserted.
+func checkSharedSuccess(o *common.Outcome, w *world, callers []*caller, enabled bool) {
+	if !enabled {
+		return
+	}
+	n := 0
+	for _, c := range callers {
+		if !c.probe {
+			n++
+		}
+	}
+	for _, a := range callers {
+		tg := w.targets[a.connAddr]
+		if a.probe || !a.returned || !a.ok || tg == nil || tg.script != sSucceed || tg.peer != a.peer {
+			continue
+		}
+		failedBefore := false
+		for _, r := range w.recs {
+			if r.peer == a.peer && r.addr == a.connAddr && r.end != 0 && !r.ok && r.end < a.ret {
+				failedBefore = true
+			}
+		}
+		if failedBefore {
+			continue
+		}
+		for _, b := range callers {
+			if b == a || b.probe || b.peer != a.peer || !b.returned || b.invAt >= a.retAt || b.ret < a.ret {
+				continue
+			}
+			o.Probe("shared-success-asserted")
+			if b.retAt > a.retAt+dnsSlack(w, a.peer, n)+time.Second {
+				o.Violate("C05/connection-obtained-but-caller-kept-waiting", "%s got a connection over %s at %v; %s (invoked %v, same peer) was waiting then and returned only at %v with: %v",
+					a.name(), a.connAddr, a.retAt, b.name(), b.invAt, b.retAt, b.err)
+			}
 		}
 	}
 }
